@@ -475,13 +475,13 @@ def generate(ctx):
         yield "pre", {"vals": [a, b]}
         yield "trip", {"v": a}
     # function level: the md5 pre-image
-    for _ in range(ctx.n(700, 7000)):
+    for _ in range(ctx.n(550, 7000)):
         vals = [U.gen_value(rng) for _ in range(rng.choice([1, 1, 1, 2, 3]))]
         kw = {}
         if rng.random() < 0.15:
             kw = {k: U.gen_value(rng, 1) for k in rng.sample(["a", "b", "z", "A", "_x", "ab"], rng.randint(1, 3))}
         yield "pre", {"vals": vals, "kw": kw}
-    yield from _pair_stream(ctx, ctx.n(900, 9000))
+    yield from _pair_stream(ctx, ctx.n(700, 9000))
     for _ in range(ctx.n(150, 1500)):
         yield "trip", {"v": U.gen_value(rng)}
     for a, b, label in MEMMAP_PAIRS:
